@@ -15,7 +15,14 @@ var allProps = []string{"C01", "C02", "C03", "C04", "C05", "C06", "C07", "C08", 
 func cmdManifest() int {
 	var cs []map[string]any
 	have := map[string]bool{}
+	isProp := map[string]bool{}
+	for _, id := range allProps {
+		isProp[id] = true
+	}
 	for _, c := range checks {
+		if !isProp[c.ID] {
+			continue
+		}
 		have[c.ID] = true
 		cs = append(cs, map[string]any{
 			"property_id":         c.ID,
@@ -58,7 +65,9 @@ func cmdManifest() int {
 			"serves_properties": func() []string {
 				var s []string
 				for _, c := range checks {
-					s = append(s, c.ID)
+					if c.ID[0] == 'C' {
+						s = append(s, c.ID)
+					}
 				}
 				return s
 			}(),
